@@ -427,7 +427,8 @@ def summarize(world_cls, tier, base_seed, results, wall, violations, known_hit,
         "distinct_schedules": n_distinct,
         "distinct_states": n_states,
         "runs_without_any_fault": fault_free,
-        "components": world_cls.COMPONENTS,
+        "components": {**world_cls.COMPONENTS,
+                       "stub": list(world_cls.COMPONENTS.get("stub", [])) + [engine.PATH_SEAM_NOTE]},
         "known_findings_reproduced": sorted(known_hit),
         "stopped_early_at_wall_cap": stopped_early,
         "workers": None,
